@@ -89,10 +89,23 @@ DelBad(e) ==
 Judge(e) == IF ~e.alive THEN <<"server.died">>
             ELSE SelectSeq(<<IncrBad(e), AppendBad(e), AddBad(e), DelBad(e)>>, LAMBDA x : x # "")
 
+(* --- the configured memory limit (C14, C15) -------------------------------- *)
+(* far more than the limit was offered in records of at most maxrec bytes: what is still stored is at most the limit   *)
+(* plus the record just written, and - eviction stops as soon as the store fits - not much less than the limit         *)
+MemBad(e) == IF ~e.alive THEN "server.died"
+             ELSE IF e.bad > 0 THEN "memprobe.store.or.value.wrong"
+             ELSE IF e.offered < 3 * e.limit THEN ""                       \* (not enough pressure to tell)
+             ELSE IF e.stored > e.limit + e.maxrec THEN "memory.limit.not.enforced"
+             ELSE IF e.stored + 2 * e.maxrec < e.limit THEN "evicted.far.below.the.limit"
+             ELSE ""
+
 Step ==
     /\ l <= N /\ l' = l + 1
     /\ LET e == Rec[l] IN
-       IF e.e # "hammer" THEN UNCHANGED <<viol, cov>>
+       IF e.e = "memprobe" THEN
+            IF MemBad(e) # "" THEN viol' = Append(viol, [line |-> l, tags |-> {"C14", "C15", "C20"}, rule |-> MemBad(e)]) /\ UNCHANGED cov
+            ELSE cov' = Count(cov, "memory.limit.enforced") /\ UNCHANGED viol
+       ELSE IF e.e # "hammer" THEN UNCHANGED <<viol, cov>>
        ELSE LET j == Judge(e) IN
             IF j # <<>> THEN viol' = viol \o [i \in 1..Len(j) |-> [line |-> l, tags |-> {"C04", "C20"}, rule |-> j[i]]] /\ UNCHANGED cov
             ELSE cov' = Count(Count(Count(Count(cov, "incr.exact"), "append.all.once"), "add.exactly.one"), "delete.final") /\ UNCHANGED viol
